@@ -152,6 +152,9 @@ def check(case, r, tier):
             if ch in members or ch == "¤":
                 continue
             forms = [".ascii /a%sb/\n" % ch]
+            if cp % 8 == 3 or cp < 0x500:
+                # the same with a chunk that cannot be evaluated yet: the refusal must survive the abandoned first attempt
+                forms.append(".ascii /a%sb/<lf>\nlf = 12\n" % ch)
             if cp % 4 == 0:
                 forms.append(".word '%s\n" % ch)
             if cp % 64 == 1:
